@@ -446,11 +446,242 @@ def comprehend_append_loops(tree: ast.Module) -> int:
     return total
 
 
-def normalise(tree: ast.Module) -> Dict[str, int]:
+# ---------------------------------------------------------------------------------------------- (7) small straight-line helpers
+def _simple_arg(e) -> bool:
+    if isinstance(e, (ast.Name, ast.Constant)):
+        return True
+    if isinstance(e, ast.Attribute):
+        return _simple_arg(e.value)
+    if isinstance(e, ast.Subscript) and not isinstance(e.slice, ast.Slice):
+        return _simple_arg(e.value) and _simple_arg(e.slice)
+    if isinstance(e, ast.UnaryOp):
+        return _simple_arg(e.operand)
+    return False
+
+
+def _straight_line(fn) -> Optional[List[ast.stmt]]:
+    """body of a small helper that is a sequence of simple statements ending in its only `return` (or without one)"""
+    if not isinstance(fn, ast.FunctionDef) or fn.decorator_list:
+        return None
+    a = fn.args
+    if a.vararg or a.kwonlyargs or a.posonlyargs:
+        return None
+    body = [s for s in fn.body if not (isinstance(s, ast.Expr) and isinstance(s.value, ast.Constant))]
+    if not (2 <= len(body) <= 8):
+        return None  # one-statement helpers are handled by (1)
+    for i, st in enumerate(body):
+        last = i == len(body) - 1
+        if isinstance(st, ast.Return):
+            if not last:
+                return None
+        elif not isinstance(st, (ast.Assign, ast.AugAssign, ast.Expr)):
+            return None
+        for n in ast.walk(st):
+            if isinstance(n, (ast.Yield, ast.YieldFrom, ast.Await, ast.NamedExpr, ast.Lambda)) or isinstance(n, FUNC):
+                return None
+            if isinstance(n, ast.Name) and n.id in (fn.name, "super", "locals", "vars", "globals"):
+                return None
+            if isinstance(n, ast.Attribute) and n.attr == fn.name:
+                return None  # recursion through self
+    params = {x.arg for x in a.args}
+    for st in body:
+        for n in ast.walk(st):
+            if isinstance(n, ast.Name) and isinstance(n.ctx, (ast.Store, ast.Del)) and n.id in params:
+                return None  # a parameter is re-bound
+    if a.kwarg is not None:
+        kw = a.kwarg.arg
+        for st in body:
+            for n in ast.walk(st):
+                if isinstance(n, ast.Name) and n.id == kw:
+                    par_ok = any(isinstance(c, ast.Call) and any(k.arg is None and k.value is n for k in c.keywords) for c in ast.walk(st))
+                    if not par_ok:
+                        return None
+    return body
+
+
+_INL_COUNTER = [0]
+
+
+def _inline_call(fn, body, call: ast.Call, receiver, caller_stored: Set[str]):
+    """-> (prefix statements, result expression or None) or None when the call cannot be inlined"""
+    a = fn.args
+    params = [x.arg for x in a.args]
+    defaults = dict(zip(params[len(params) - len(a.defaults):], a.defaults))
+    env: Dict[str, ast.AST] = {}
+    if receiver is not None:
+        if not params:
+            return None
+        env[params[0]] = receiver
+        params = params[1:]
+    if any(isinstance(x, ast.Starred) for x in call.args) or len(call.args) > len(params):
+        return None
+    for p_, v in zip(params, call.args):
+        env[p_] = v
+    extra_kw = []
+    for k in call.keywords:
+        if k.arg is not None and k.arg in params and k.arg not in env:
+            env[k.arg] = k.value
+        elif a.kwarg is not None:
+            extra_kw.append(k)
+        else:
+            return None
+    for p_ in params:
+        if p_ not in env:
+            if p_ not in defaults:
+                return None
+            env[p_] = defaults[p_]
+    _INL_COUNTER[0] += 1
+    tag = f"__i{_INL_COUNTER[0]}"
+    pre = []
+    # arguments that are not plain are evaluated once, in order, like the call would
+    for p_ in list(env):
+        if p_ != (a.args[0].arg if receiver is not None else None) and not _simple_arg(env[p_]):
+            tmp = ast.Name(id=f"{p_}{tag}", ctx=ast.Store())
+            pre.append(ast.Assign(targets=[tmp], value=env[p_]))
+            env[p_] = ast.Name(id=f"{p_}{tag}", ctx=ast.Load())
+    locals_ = set()
+    for st in body:
+        for n in ast.walk(st):
+            if isinstance(n, ast.Name) and isinstance(n.ctx, (ast.Store, ast.Del)):
+                locals_.add(n.id)
+    free = {n.id for st in body for n in ast.walk(st) if isinstance(n, ast.Name)} - locals_ - set(env) - ({a.kwarg.arg} if a.kwarg else set())
+    if receiver is None and free & caller_stored:
+        return None
+
+    class R(ast.NodeTransformer):
+        def visit_Name(self, n):
+            if n.id in locals_:
+                return ast.copy_location(ast.Name(id=n.id + tag, ctx=n.ctx), n)
+            if isinstance(n.ctx, ast.Load) and n.id in env:
+                return copy.deepcopy(env[n.id])
+            return n
+
+        def visit_Call(self, c):
+            self.generic_visit(c)
+            if a.kwarg is not None:
+                kws = []
+                for k in c.keywords:
+                    if k.arg is None and isinstance(k.value, ast.Name) and k.value.id == a.kwarg.arg:
+                        kws += [copy.deepcopy(x) for x in extra_kw]
+                    else:
+                        kws.append(k)
+                c.keywords = kws
+            return c
+
+    out = []
+    result = None
+    for st in body:
+        st2 = R().visit(copy.deepcopy(st))
+        if isinstance(st2, ast.Return):
+            result = st2.value
+        else:
+            out.append(st2)
+    for n in pre + out + ([result] if result is not None else []):
+        for x in ast.walk(n):
+            if isinstance(x, (ast.expr, ast.stmt)):
+                x.lineno, x.col_offset = call.lineno, call.col_offset
+                x.end_lineno, x.end_col_offset = getattr(call, "end_lineno", call.lineno), getattr(call, "end_col_offset", call.col_offset)
+    return pre + out, result
+
+
+def inline_straight_line_helpers(tree: ast.Module, keep=frozenset()) -> int:
+    """`x = self._h(...)`, `return self._h(...)`, `self._h(...)` (and the same for module-level / nested helpers called by
+    name) are replaced by the helper's statements when the helper is a short straight-line private function.  A helper
+    all of whose uses were inlined is dropped from its class."""
+    total = 0
+    top = {s.name: s for s in tree.body if isinstance(s, ast.FunctionDef) and s.name.startswith("_") and s.name not in keep and _straight_line(s) is not None}
+
+    def rewrite_block(block, methods, by_name, stored):
+        nonlocal total
+        i = 0
+        while i < len(block):
+            st = block[i]
+            call = None
+            kind = None
+            if isinstance(st, ast.Assign) and len(st.targets) == 1 and isinstance(st.value, ast.Call):
+                call, kind = st.value, "assign"
+            elif isinstance(st, ast.Return) and isinstance(st.value, ast.Call):
+                call, kind = st.value, "return"
+            elif isinstance(st, ast.Expr) and isinstance(st.value, ast.Call):
+                call, kind = st.value, "expr"
+            done = False
+            if call is not None:
+                f = call.func
+                fn = recv = None
+                if isinstance(f, ast.Name) and f.id in by_name:
+                    fn = by_name[f.id]
+                elif isinstance(f, ast.Attribute) and isinstance(f.value, ast.Name) and f.value.id == "self" and f.attr in methods:
+                    fn, recv = methods[f.attr], f.value
+                if fn is not None:
+                    body = _straight_line(fn)
+                    r = _inline_call(fn, body, call, recv, stored) if body is not None else None
+                    if r is not None:
+                        stmts, result = r
+                        if kind == "assign":
+                            if result is None:
+                                result = ast.Constant(None)
+                            tail = [ast.copy_location(ast.Assign(targets=st.targets, value=result), st)]
+                        elif kind == "return":
+                            tail = [ast.copy_location(ast.Return(value=result), st)]
+                        else:
+                            tail = [ast.copy_location(ast.Expr(value=result), st)] if (result is not None and not isinstance(result, (ast.Name, ast.Constant))) else []
+                        new = stmts + tail
+                        if new:
+                            block[i:i + 1] = new
+                            total += 1
+                            done = True
+            if not done:
+                for fld in ("body", "orelse", "finalbody"):
+                    sub = getattr(st, fld, None)
+                    if isinstance(sub, list) and sub and isinstance(sub[0], ast.stmt) and not isinstance(st, FUNC + (ast.ClassDef,)):
+                        rewrite_block(sub, methods, by_name, stored)
+                for h in getattr(st, "handlers", []) or []:
+                    rewrite_block(h.body, methods, by_name, stored)
+                i += 1
+
+    def do_function(fn, methods):
+        stored = _stored_names(fn)
+        nested = {s.name: s for s in fn.body if isinstance(s, ast.FunctionDef) and s.name not in keep and _straight_line(s) is not None}
+        by_name = {k: v for k, v in top.items() if k not in stored and v is not fn}
+        by_name.update({k: v for k, v in nested.items()})
+        ms = {k: v for k, v in methods.items() if v is not fn}
+        rewrite_block(fn.body, ms, by_name, stored)
+        for s in fn.body:
+            if isinstance(s, FUNC):
+                do_function(s, methods)
+
+    def walk(body, methods):
+        for st in body:
+            if isinstance(st, FUNC):
+                do_function(st, methods)
+            elif isinstance(st, ast.ClassDef):
+                ms = {s.name: s for s in st.body if isinstance(s, ast.FunctionDef) and s.name.startswith("_") and not s.name.startswith("__") and s.name not in keep and _straight_line(s) is not None}
+                walk(st.body, ms)
+
+    for _ in range(2):
+        before = total
+        walk(tree.body, {})
+        if total == before:
+            break
+    if total:
+        # drop private methods that are no longer referenced anywhere in the module
+        for cls in [n for n in ast.walk(tree) if isinstance(n, ast.ClassDef)]:
+            for s in list(cls.body):
+                if isinstance(s, ast.FunctionDef) and s.name.startswith("_") and not s.name.startswith("__") and s.name not in keep and _straight_line(s) is not None:
+                    used = any(isinstance(n, ast.Attribute) and n.attr == s.name for n in ast.walk(tree)) or any(
+                        isinstance(n, ast.Constant) and n.value == s.name for n in ast.walk(tree))
+                    if not used:
+                        cls.body.remove(s)
+        ast.fix_missing_locations(tree)
+    return total
+
+
+def normalise(tree: ast.Module, keep=frozenset()) -> Dict[str, int]:
     a = inline_trivial_helpers(tree)
+    a2 = inline_straight_line_helpers(tree, keep)
     b = propagate_condition_temps(tree)
     c = canonicalise_updates(tree)
     d = canonicalise_text_building(tree)
     q = expand_quantified_returns(tree)
     l = comprehend_append_loops(tree)
-    return {"append_loops": l, "helpers_inlined": a, "condition_temporaries": b, "updates": c, "text_concatenations": d, "quantified_returns": q}
+    return {"append_loops": l, "helpers_inlined": a, "straight_line_helpers_inlined": a2, "condition_temporaries": b, "updates": c, "text_concatenations": d, "quantified_returns": q}
